@@ -109,14 +109,31 @@ func (c *Ctx) sideGoroutineErrors(want func(key string) bool) {
 			}
 		})
 		for _, g := range gos {
-			mc, ok := g.Call.Value.(*ssa.MakeClosure)
-			if !ok {
+			// the goroutine's function and the cells of fn it can write: captured variables of a
+			// closure, or addresses passed to a named function (go produce(ctx, w, &err))
+			var cl *ssa.Function
+			var shared, inner []ssa.Value
+			if mc, ok := g.Call.Value.(*ssa.MakeClosure); ok {
+				cl = mc.Fn.(*ssa.Function)
+				for k, b := range mc.Bindings {
+					if k < len(cl.FreeVars) {
+						shared, inner = append(shared, b), append(inner, cl.FreeVars[k])
+					}
+				}
+			} else if cal := g.Call.StaticCallee(); cal != nil && !g.Call.IsInvoke() && cal.Pkg == fn.Pkg && len(cal.Blocks) > 0 {
+				cl = cal
+				for k, b := range g.Call.Args {
+					if k < len(cl.Params) {
+						shared, inner = append(shared, b), append(inner, cl.Params[k])
+					}
+				}
+			}
+			if cl == nil {
 				continue
 			}
-			cl := mc.Fn.(*ssa.Function)
-			for k, b := range mc.Bindings {
+			for k, b := range shared {
 				A, isAlloc := b.(*ssa.Alloc)
-				if !isAlloc || k >= len(cl.FreeVars) {
+				if !isAlloc {
 					continue
 				}
 				pt, _ := A.Type().Underlying().(*types.Pointer)
@@ -208,7 +225,7 @@ func (c *Ctx) sideGoroutineErrors(want func(key string) bool) {
 				// the producing side: whenever the work in the goroutine fails, the shared variable ends
 				// up non-nil - no "only if the context is still alive" filter (the consumer relies on it
 				// also, and especially, for interruptions)
-				fv := cl.FreeVars[k]
+				fv := inner[k]
 				var producers []*ssa.Call
 				for _, st := range storesTo(A) {
 					if st.Parent() != cl {
